@@ -10,7 +10,7 @@ CLAIM = {
              "ScalarMappable definitely passes ax or cax, for every grid / relative-position valuation; (R3) the x / y / error / colour names reach the matching slot of plot / errorbar / scatter / hist / pcolormesh and the heat-map array is transposed to (y, x) "
              "by dimension name on every path; (R4) each series is masked by exactly isfinite(x) & isfinite(y) applied to all its components, exactly one series is yielded per z value on every path through the generator's loop body (no skip, no repeat), and in each draw loop the label iterator advances once and one artist is created per series on "
              "every path; (R5) grid panels: rows outer / columns inner consistently in the data split, GridSpec[i, j] and titles; (R6) no store, augmented assignment or in-place method on a value that may alias the caller's dataset; (R7) line colours are "
-             "cmap(norm(v)) with v and the norm's limits from the same quantity and absent limits are tested with `is None`."),
+             "cmap(norm(v)) with v and the norm's limits from the same quantity and absent limits are tested with `is None`, and the numeric / non-numeric test on z values holds for numpy scalars. In R4: the per-series arrays are aligned with xr.broadcast before flattening; the histogram loop advances its label iterator and yields once per series on every path."),
     "note": "Trusted base: the matplotlib slot table (plot(x, y), errorbar(x, y, yerr=, xerr=), scatter(x, y), hist(x), pcolormesh(X, Y, C[y, x]), Figure.colorbar(mappable, ax=|cax=)); view / fresh-array producer tables in xyzsa/props/plots.py.",
     "technique": "static analysis: reference resolution against installed packages (closed-world attribute check), definite-key dataflow, role-provenance rules at draw sinks, CFG lock-step path rules, alias/taint no-mutation rule",
 }
